@@ -77,3 +77,40 @@ def conn_callbacks(rng):
         t1.append(rng.choice([["reg", rng.choice(pool)], ["unreg", rng.choice(pool + [3])], ["reg", 3]]))
     threads = [t0 + [["join"], ["sleep", 2.0]], t1]
     return {"kind": "conn", "device": device(rng), "log_size": 0, "threads": threads, "pre_register": pre, "callbacks": scripts}
+
+
+def conn_lifecycle(rng):
+    """C15/C16 flavour: link drops at random points, close() at any time from caller threads, from inside message callbacks
+    and from the disconnect callback, repeated and concurrent; API calls on the dead connection"""
+    sleeps = [0, 0, 0.01, 0.05, 0.1, 0.25, 1.0, 2.5]
+    t0 = burst_ops(rng, 0, rng.randint(0, 15), sleeps)
+    t1 = burst_ops(rng, 1, rng.randint(0, 10), sleeps)
+    threads = [t0, t1]
+    how = rng.choice(["drop", "eof", "close", "close-cb", "close-disc", "close2", "none", "drop+close", "write-fault"])
+    dev = device(rng)
+    spec = {"kind": "conn", "device": dev, "log_size": rng.choice([0, 3]), "threads": threads, "pre_register": [1, 2], "callbacks": {}}
+    if how in ("drop", "drop+close"):
+        th = rng.choice(threads)
+        th.insert(rng.randrange(len(th) + 1), ["drop"])
+    if how == "eof":
+        dev["eof_after_bytes"] = rng.randint(0, 120)
+    if how == "write-fault":
+        spec["write_fault_after"] = rng.randint(0, 8)
+    if how in ("close", "close2", "drop+close"):
+        th = rng.choice(threads)
+        th.insert(rng.randrange(len(th) + 1), ["close"])
+        if how == "close2":
+            th2 = rng.choice(threads)
+            th2.insert(rng.randrange(len(th2) + 1), ["close"])
+            th2.insert(rng.randrange(len(th2) + 1), ["close"])
+    if how == "close-cb":
+        k = rng.randint(0, 4)
+        spec["callbacks"]["2"] = [[] for _ in range(k)] + [[["close"]] + ([["put", "X", "Y", "1"]] if rng.random() < 0.5 else [])]
+    if how == "close-disc":
+        th = rng.choice(threads)
+        th.insert(rng.randrange(len(th) + 1), ["drop"])
+        spec["disconnect_ops"] = [["close"]] + ([["put", "X", "Z", "2"]] if rng.random() < 0.5 else [])
+    # API calls afterwards (must be silent no-ops on a dead connection)
+    tail = [["sleep", rng.choice([0.5, 3.0])], ["connected"], ["put", "T", "A", "1"], ["get", "T", "B"], ["raw", "@T:C=3"], ["snap"], ["sleep", 1.0]]
+    threads[0].extend([["join"]] + tail)
+    return spec
